@@ -188,8 +188,10 @@ impl<'a> Runner<'a> {
         // `gen` (identity of the policy instance) and `chain_cap` (= capacity, part of the snapshot)
         // are bookkeeping of the oracle, not state the reader can observe
         let harness = format!(
-            "{}|{:?}|{:?}|{}|{}|{:?}|src={}|fired={:?}|rd={}",
+            "{}|{:?}|{:?}|{}|{}|{:?}{}|src={}|fired={:?}|rd={}",
             self.m.cur, self.m.phase, self.m.post_last, self.m.had_exact, self.m.strict, self.m.policy,
+            // a stateful policy's state is part of the environment
+            if matches!(self.m.policy, PolKind::StutterPlus1) || matches!(self.sc.env.policy, PolKind::StutterPlus1) { self.r.pl().calls.borrow().len() % 2 } else { 0 },
             sh.pos.get(),
             sh.fault_fired.get().is_some(),
             match self.sc.env.int {
@@ -762,6 +764,7 @@ pub fn explore(sc: &Scenario, rs: &RefStream, state_cap: usize, cache: bool, max
             }
             stats.api_calls += h.len() as u64 + 1;
             stats.transitions += 1;
+            crate::sweep::TICK.fetch_add(1, std::sync::atomic::Ordering::Relaxed);
             let d0 = (r.stats_seek_in, r.stats_seek_real, r.stats_grow, r.stats_refuse, r.set_ok);
             let res = r.step(op);
             stats.seeks_in_buffer += r.stats_seek_in - d0.0;
